@@ -41,4 +41,5 @@ func (g *gen) run() {
 	g.lockTable()
 	g.tables()
 	g.schemas()
+	g.jschemas()
 }
